@@ -18,10 +18,11 @@ Record fixes := mk_fixes {
   fx_hevc : bool;       (* hevc.parseVpsSpsPpsFromRecord checks len >= 33, parseVpsSpsPpsAnnexbFromRecord skips an empty nalu
                            (two fix commits, one flag: the C19 model has one `fixed` parameter for both) *)
   fx_dummy : bool;      (* DummyAudioFilter fills at most 10 s per message, 64-bit compare *)
-  fx_pad : bool         (* avc.ParseSps / hevc.ParseSps hand nazabits the RBSP copy with one zero byte appended (F-13) *)
+  fx_pad : bool;        (* avc.ParseSps / hevc.ParseSps hand nazabits the RBSP copy with one zero byte appended (F-13) *)
+  fx_bound : bool       (* rtprtcp.IsAvcBoundary / IsHevcBoundary check the body length (C13's fix; F-45 from the publish side) *)
 }.
-Definition fixes_pinned : fixes := mk_fixes false false false false false false false false false false false.
-Definition fixes_all : fixes := mk_fixes true true true true true true true true true true true.
+Definition fixes_pinned : fixes := mk_fixes false false false false false false false false false false false false.
+Definition fixes_all : fixes := mk_fixes true true true true true true true true true true true true.
 
 Record mmsg := mk_mmsg { mm_type : N; mm_ts : N; mm_pay : bytes }.
 
@@ -47,6 +48,8 @@ Definition s_pts_slice : N := 114. (* base.RtmpMsg.Pts:slice *)
 Definition s_ts_feedvideo : N := 115.  (* remux.Rtmp2MpegtsRemuxer.feedVideo:slice *)
 Definition s_rtsp_remux : N := 116.    (* remux.Rtmp2RtspRemuxer.remux:slice *)
 Definition s_ts_push : N := 117.       (* remux.rtmp2MpegtsFilter.Push:index *)
+Definition s_avc_boundary : N := 120.   (* rtprtcp.IsAvcBoundary:index *)
+Definition s_hevc_boundary : N := 121.  (* rtprtcp.IsHevcBoundary:index *)
 Definition s_ts_onpop : N := 118.      (* an index inside onPop/feedAudio that the guards make unreachable *)
 
 (* p[i] *)
